@@ -180,6 +180,43 @@ theorem forward_exactly_one_consumer_host_counterexample :
     consumers from_ to false ⟨0, 1, 1⟩ = [] ∧ (⟨0, 1, 1⟩ : Coord) ∈ from_.replicas := by
   decide
 
+/-! ### The candidate repair of F4 (NOT the code under verification; see the report) -/
+
+/-- Candidate fix in `build_execution_graph`: a producer replica of a non-fragile `OnlyOne` edge
+    that ends up without consumer is connected to `consumers_sorted[global_id % k]`
+    (`to.replicas` is already in coordinate order in the model). -/
+def consumersFixed (from_ to : BlockInfo) (fragile : Bool) (f : Coord) : List Coord :=
+  let cs := consumers from_ to fragile f
+  if from_.onlyOne && !fragile && cs.isEmpty then
+    match to.replicas[from_.globalId f % to.replicas.length]? with
+    | some t => [t]
+    | none => []
+  else cs
+
+/-- With the candidate fix the full statement holds on every non-fragile forward edge into a
+    non-empty block: exactly one consumer, the same-(host, replica) one when it exists. (So `End`'s
+    `assert_eq!(indexes.len(), 1)` keeps holding; `Start` counts the producers of a consumer
+    replica from the links themselves, so its marker accounting follows.) -/
+theorem forward_exactly_one_consumer_fixed (from_ to : BlockInfo) (hoo : from_.onlyOne = true)
+    (hne : to.replicas ≠ []) (f : Coord) :
+    ∃ t ∈ to.replicas, consumersFixed from_ to false f = [t] ∧
+      (partner to f ∈ to.replicas → t = partner to f) := by
+  have hfw : (from_.onlyOne || false) = true := by simp [hoo]
+  by_cases hp : partner to f ∈ to.replicas
+  · refine ⟨partner to f, hp, ?_, fun _ => rfl⟩
+    simp [consumersFixed, consumers_partner from_ to false f hfw hp]
+  · by_cases h1 : to.replicas.length = 1
+    · match hr : to.replicas, h1 with
+      | [t], _ =>
+        refine ⟨t, by simp, ?_, fun h => absurd (hr ▸ h) hp⟩
+        simp [consumersFixed, consumers_single from_ to false f (by simp [hr]), hr]
+    · have hc := consumers_orphan from_ to false f hfw hp h1
+      have hpos : 0 < to.replicas.length := List.length_pos_iff.mpr hne
+      have hlt := Nat.mod_lt (from_.globalId f) hpos
+      refine ⟨to.replicas[from_.globalId f % to.replicas.length], List.getElem_mem hlt, ?_,
+        fun h => absurd h hp⟩
+      simp [consumersFixed, hc, hoo, List.getElem?_eq_getElem hlt]
+
 /-! ## Ports -/
 
 /-- **C19 (ports).** The endpoints that get an address are pairwise distinct, each gets the address
@@ -231,8 +268,9 @@ theorem graph_independent_of_host_id (cfg : Config) (job : Job) (hostId hostId' 
   rfl
 
 /-- **C19 (independent of hash-map iteration order), links and addresses.** Permuting the order in
-    which the connections of the job graph are enumerated (`next_blocks.iter()`, the `Vec`s inside,
-    `replicas.values()`) changes neither the sorted link list nor the address assignment. -/
+    which the connections of the job graph are enumerated (`next_blocks.iter()` and the `Vec`s
+    inside) changes neither the sorted link list nor the address assignment. (Replica lists are
+    produced in host order by the code and by the model; the dump hook sorts what it prints.) -/
 theorem graph_independent_of_map_order (cfg : Config) (infos : List BlockInfo)
     (edges edges' : List Edge) (h : edges.Perm edges') :
     sortLinks (allLinks infos edges) = sortLinks (allLinks infos edges') ∧
